@@ -496,6 +496,7 @@ hwloc_backend_synthetic_init(struct hwloc_synthetic_backend_data_s *data,
   data->level[0].attr.memorysize = 0;
   data->level[0].attr.memorysidecachesize = 0;
   data->level[0].attached = NULL;
+  data->level[0].arity = 0; /* hwloc_synthetic_free_levels() stops at the first level without arity */
   type_count[HWLOC_OBJ_MACHINE] = 1;
   if (*description == '(') {
     err = hwloc_synthetic_parse_attrs(description+1, &description, &data->level[0].attr, &data->level[0].indexes, verbose);
@@ -579,6 +580,7 @@ hwloc_backend_synthetic_init(struct hwloc_synthetic_backend_data_s *data,
     data->level[count].indexes.string = NULL;
     data->level[count].indexes.array = NULL;
     data->level[count].attached = NULL;
+    data->level[count].arity = 0;
 
     if (*pos < '0' || *pos > '9') {
       if (hwloc_type_sscanf(pos, &type, &attrs, sizeof(attrs)) < 0) {
@@ -670,7 +672,7 @@ hwloc_backend_synthetic_init(struct hwloc_synthetic_backend_data_s *data,
     if (verbose)
       fprintf(stderr, "Synthetic string cannot use non-PU type for last level\n");
     errno = EINVAL;
-    return -1;
+    goto error;
   }
   data->level[count-1].attr.type = HWLOC_OBJ_PU;
 
@@ -689,42 +691,42 @@ hwloc_backend_synthetic_init(struct hwloc_synthetic_backend_data_s *data,
     if (verbose)
       fprintf(stderr, "Synthetic string missing ending number of PUs\n");
     errno = EINVAL;
-    return -1;
+    goto error;
   } else if (type_count[HWLOC_OBJ_PU] > 1) {
     if (verbose)
       fprintf(stderr, "Synthetic string cannot have several PU levels\n");
     errno = EINVAL;
-    return -1;
+    goto error;
   }
   if (type_count[HWLOC_OBJ_PACKAGE] > 1) {
     if (verbose)
       fprintf(stderr, "Synthetic string cannot have several package levels\n");
     errno = EINVAL;
-    return -1;
+    goto error;
   }
   if (type_count[HWLOC_OBJ_DIE] > 1) {
     if (verbose)
       fprintf(stderr, "Synthetic string cannot have several die levels\n");
     errno = EINVAL;
-    return -1;
+    goto error;
   }
   if (type_count[HWLOC_OBJ_NUMANODE] > 1) {
     if (verbose)
       fprintf(stderr, "Synthetic string cannot have several NUMA node levels\n");
     errno = EINVAL;
-    return -1;
+    goto error;
   }
   if (type_count[HWLOC_OBJ_NUMANODE] && data->numa_attached_nr) {
     if (verbose)
       fprintf(stderr,"Synthetic string cannot have NUMA nodes both as a level and attached\n");
     errno = EINVAL;
-    return -1;
+    goto error;
   }
   if (type_count[HWLOC_OBJ_CORE] > 1) {
     if (verbose)
       fprintf(stderr, "Synthetic string cannot have several core levels\n");
     errno = EINVAL;
-    return -1;
+    goto error;
   }
 
   /* deal with missing intermediate levels */
@@ -737,7 +739,7 @@ hwloc_backend_synthetic_init(struct hwloc_synthetic_backend_data_s *data,
     if (verbose)
       fprintf(stderr, "Synthetic string cannot mix unspecified and specified types for levels\n");
     errno = EINVAL;
-    return -1;
+    goto error;
   }
   if (unset) {
     /* we want in priority: numa, package, core, up to 3 caches, groups */
